@@ -42,7 +42,7 @@ def mk_alignments(g, n, groups=("NA",)):
         ra = Obj(assignment_id=i + 1, read_id=READS[g.choice("al%d_read" % i, len(READS))], chr_id=CHRS[g.choice("al%d_chr" % i, len(CHRS))],
                  exons=[(g.int("al%d_start" % i, 1, 10 ** 6), g.int("al%d_end" % i, 1, 10 ** 6))],
                  genomic_region=(g.int("al%d_reg0" % i, 1, 10 ** 6), g.int("al%d_reg1" % i, 1, 10 ** 6)),
-                 multimapper=bool(g.bool("al%d_secondary" % i)), polyA_found=False,
+                 multimapper=bool(g.bool("al%d_secondary" % i)), polyA_found=bool(g.bool("al%d_polya" % i)),
                  assignment_type=TYPES[g.choice("al%d_type" % i, len(TYPES))], isoform_matches=[])
         g.add(ra.exons[0][0] <= ra.exons[0][1])
         g.add(ra.genomic_region[0] <= ra.genomic_region[1])
@@ -52,6 +52,11 @@ def mk_alignments(g, n, groups=("NA",)):
         ra.group = groups[g.choice("al%d_group" % i, len(groups))] if len(groups) > 1 else groups[0]
         als.append(ra)
     return als
+
+
+OPTIONS_CHANGED = {}
+UNMAPPED = {}          # "per_file": unmapped-read counts of the experiment's BAM files (default: one file without unmapped reads)
+STATS = {}
 
 
 class FakeQuickLoader:
@@ -95,16 +100,22 @@ def run_collect(g, als, high_memory, workdir):
     saved = (dp.collect_reads_in_parallel, dp.BasicReadAssignmentLoader, dp.pysam, dp.__dict__.get("open"), ser.__dict__.get("open"))
     dp.collect_reads_in_parallel = fake_collect
     dp.BasicReadAssignmentLoader = FakeQuickLoader
-    dp.pysam = Obj(AlignmentFile=lambda *a, **k: Obj(unmapped=0))
+    unmapped = UNMAPPED.get("per_file") or [0]
+    dp.pysam = Obj(AlignmentFile=lambda path, *a, **k: Obj(unmapped=unmapped[int(path[1:-4])], close=lambda: None))
     dp.open = fake_open
     try:
         this = dp.DatasetProcessor.__new__(dp.DatasetProcessor)
         this.args = Obj(threads=1, high_memory=high_memory, resume=False, multimap_strategy=mr.MultimapResolvingStrategy.take_best,
-                        keep_tmp=True, gunzipped_reference=None)
+                        keep_tmp=True, gunzipped_reference=None, no_model_construction=False, genedb=None, read_group=None)
         this.get_chr_list = lambda: list(CHRS)
         this.alignment_stat_counter = dp.EnumStats()
-        sample = Obj(out_raw_file=raw, file_list=[["x.bam"]])
+        sample = Obj(out_raw_file=raw, file_list=[["f%d.bam" % i] for i in range(len(unmapped))])
+        before = dict(vars(this.args))
         call(g, this.collect_reads, sample)
+        changed = sorted(k for k in set(before) | set(vars(this.args)) if before.get(k, "<unset>") is not vars(this.args).get(k, "<unset>")
+                         and before.get(k, "<unset>") != vars(this.args).get(k, "<unset>"))
+        OPTIONS_CHANGED[high_memory] = changed
+        STATS[high_memory] = this.alignment_stat_counter.stats_dict[AlignmentType.unaligned]
     finally:
         dp.collect_reads_in_parallel, dp.BasicReadAssignmentLoader, dp.pysam = saved[0], saved[1], saved[2]
         if saved[3] is None:
@@ -135,10 +146,11 @@ def run_collect(g, als, high_memory, workdir):
     return verdicts, Obj(total_assignments=total, polya=polya, groups=groups), raw + "_lock" in streams
 
 
-def h_handoff(n, groups=("NA",)):
+def h_handoff(n, groups=("NA",), n_files=1):
     def fn(g):
         g.batch = False
         als = mk_alignments(g, n, groups)
+        UNMAPPED["per_file"] = [g.int("file%d_unmapped_reads" % i, 0, 1000) for i in range(n_files)] if n_files > 1 else [0]
         workdir = tempfile.gettempdir()
         res = {}
         for hm in (False, True):
@@ -146,7 +158,12 @@ def h_handoff(n, groups=("NA",)):
         for hm in (False, True):
             verdicts, info, locked = res[hm]
             g.check(locked, "the stage lock is written", detail={"high_memory": hm})
+            g.check(STATS[hm] == SUM(UNMAPPED["per_file"]), "the unaligned-read statistic of an experiment = unmapped reads of all its BAM files",
+                    detail={"high_memory": hm, "files": len(UNMAPPED["per_file"])})
+            g.check(not OPTIONS_CHANGED.get(hm), "read collection leaves the run options as they were (they are shared by all experiments of the run)",
+                    detail={"high_memory": hm, "changed": OPTIONS_CHANGED.get(hm)})
             n_kept = 0
+            n_polya = 0
             for a in als:
                 same_read = [b for b in als if b.read_id == a.read_id]
                 v = [x for x in verdicts[a.chr_id] if x.read_id == a.read_id and x.assignment_id == a.assignment_id]
@@ -155,10 +172,14 @@ def h_handoff(n, groups=("NA",)):
                             detail={"high_memory": hm, "read": a.read_id, "alignments_of_read": [(b.assignment_id, b.chr_id) for b in same_read]})
                     if len(v) == 1 and v[0].assignment_type != RT.suspended:
                         n_kept += 1
+                        n_polya += 1 if a.polyA_found else 0
                 else:
                     g.check(len(v) == 0, "a read with a single alignment needs no verdict")
                     n_kept += 1
+                    n_polya += 1 if a.polyA_found else 0
             g.check(info.total_assignments == n_kept, "the recorded total = number of alignments that are not suspended", detail={"high_memory": hm})
+            g.check(info.polya == n_polya, "the recorded polyA count = number of retained alignments with a polyA tail (it decides the polyA requirements)",
+                    detail={"high_memory": hm, "recorded": str(info.polya), "expected": n_polya})
             g.check(info.groups == set(a.group for a in als), "the group universe handed to the next stage = union of the groups seen on all chromosomes",
                     detail={"high_memory": hm, "written": sorted(info.groups)})
         # both modes resolve identically
